@@ -113,6 +113,28 @@ theorem C02_batch_refused (cfg : Cfg) (sh : Shape) (r : Req) (hf : Fixed cfg) (h
     obtain ⟨rn, hrn, hno⟩ := hbad
     exact absurd (runBatch_ok hf.1 hh r.args hres rn hrn) hno
 
+/-- **C02_history_no_memory.**  The object may change between requests (instance attributes set or deleted,
+    class members replaced or deleted); the answer to a request is a function of the object's state *at that
+    time* only — no gate remembers what a name denoted earlier (in particular not the cached metadata). -/
+theorem C02_history_no_memory (cfg : Cfg) : ∀ (evs : List Event) (sh : Shape),
+    runHistory cfg sh evs = (statesOf sh evs).map (fun p => dispatch cfg p.1 p.2) := by
+  intro evs
+  induction evs with
+  | nil => intro sh; rfl
+  | cons ev rest ih =>
+    intro sh
+    cases ev with
+    | step s => simp only [runHistory, statesOf]; exact ih _
+    | req r => simp only [runHistory, statesOf, List.map_cons]; rw [ih]
+
+/-- **C02_history_sound.**  In every history of run-time changes and requests, whatever target code a request
+    runs is code of a member that a requested public name denotes, exposed, *in the state the object has at
+    that moment* (states without marked plain attribute values, see F2b). -/
+theorem C02_history_sound (cfg : Cfg) (hf : Fixed cfg) (sh : Shape) (evs : List Event)
+    (hh : ∀ p ∈ statesOf sh evs, NoExposedHelperAttr p.1) :
+    ∀ p ∈ statesOf sh evs, ∀ e ∈ (dispatch cfg p.1 p.2).2, Justified p.1 (reqNames p.2) e :=
+  fun p hp => C02_served_sound cfg p.1 p.2 hf (hh p hp)
+
 /-- **C02_served_complete.**  The gate serves what is exposed: a call of an exposed public method (not
     hidden by an instance attribute) runs exactly that method; reading an exposed public property runs
     exactly its getter; writing one that has a setter runs exactly its setter.  Reply = result, or nothing
@@ -419,13 +441,15 @@ theorem C02_gen_reserved :
 
 /-- **C02_gen_gates.**  The current source has all three repairs (F2a: data descriptors of the type refused
     before the instance is touched; F2c: both property gates test the name for privacy), handleRequest calls
-    the gates in the modelled order and special-cases exactly `__getattr__` / `__setattr__`. -/
+    the gates in the modelled order, passes them exactly `method` resp. `vargs[0]` (and `vargs[1]`) — never the peer's
+    whole argument tuple — and special-cases exactly `__getattr__` / `__setattr__`. -/
 theorem C02_gen_gates :
     Fixed genCfg ∧
     Pyro.Gen.C02.dispatchGateCalls =
       ["_get_attribute", "_get_exposed_property_value", "_set_exposed_property_value", "_get_attribute"] ∧
+    Pyro.Gen.C02.dispatchGateArgs = ["obj, method", "obj, vargs[0]", "obj, vargs[0], vargs[1]", "obj, method"] ∧
     Pyro.Gen.C02.dispatchMethodConsts.map nm = [nmGetattr, nmSetattr] := by
-  refine ⟨⟨?_, ?_, ?_⟩, ?_, ?_⟩ <;> decide
+  refine ⟨⟨?_, ?_, ?_⟩, ?_, ?_, ?_⟩ <;> decide
 
 /-- **C02_gen_sources.**  The modelled functions are textually (comments and layout aside) the ones the model
     was written against. -/
@@ -489,6 +513,15 @@ example : NoShadow exShape ∧ PropsUsable exShape ∧ Allowed exShape [110] ∧
   · rintro ⟨_, m, hm, he⟩
     have : lookupType [109] exShape.mro = some (.func ⟨[109], 1, false, false⟩) := by decide
     rw [this] at hm; cases hm; simp [memberExposed] at he
+-- a history: `n` is served, then an unexposed function is put in the instance dict under `n`, then the exposed
+-- override is deleted from the subclass: the same request is answered by the state of the moment
+example : runHistory genCfg exShape
+    [.req ⟨false, false, .str [110], []⟩, .step (.setInst [110] (.fn ⟨[110], 77, false, false⟩)),
+     .req ⟨false, false, .str [110], []⟩, .step (.delInst [110]), .step (.delMember 0 [110]),
+     .req ⟨false, false, .str [110], []⟩, .step (.setMember 1 [110] (.func ⟨[110], 78, false, false⟩)),
+     .req ⟨false, false, .str [110], []⟩, .step (.setMember 0 [109] (.func ⟨[109], 79, true, false⟩)),
+     .req ⟨false, false, .str [109], []⟩]
+    = [(.result, [3]), (.error .unexposed, []), (.error .attr, []), (.error .unexposed, []), (.result, [79])] := by decide
 -- the F2b witness does what the negative theorem says
 example : dispatch genCfg f2bShape f2bReq = (.result, [8]) := by decide
 
